@@ -101,11 +101,15 @@ pub struct Expected {
     pub optional: BTreeSet<Key>,
     /// Records that must be present as answer or additional.
     pub additionals: BTreeSet<Key>,
+    /// Records that only an answer left out because of a known answer would have brought along.
+    pub suppressed_brings: BTreeSet<Key>,
+    /// Records that an answer which may or may not be given (boundary cases) may bring along.
+    pub may_bring: BTreeSet<Key>,
 }
 
 /// What the statements require as the response to `q` arriving on interface `i` over family `v4`.
 pub fn expect(services: &[(SvcState, bool)], i: &IfSpec, v4: bool, q: &Message) -> Expected {
-    let mut e = Expected { answers: BTreeSet::new(), optional: BTreeSet::new(), additionals: BTreeSet::new() };
+    let mut e = Expected { answers: BTreeSet::new(), optional: BTreeSet::new(), additionals: BTreeSet::new(), suppressed_brings: BTreeSet::new(), may_bring: BTreeSet::new() };
     let known = &q.answers;
     for (s, announced) in services.iter() {
         if !*announced {
@@ -140,6 +144,18 @@ pub fn expect(services: &[(SvcState, bool)], i: &IfSpec, v4: bool, q: &Message) 
                         for a in fam_addrs.iter() {
                             e.additionals.insert(key_of(a));
                         }
+                    } else if e.optional.contains(&key_of(answer)) {
+                        e.may_bring.insert(key_of(&recs.srv));
+                        e.may_bring.insert(key_of(&recs.txt));
+                        for a in recs.addrs.iter() {
+                            e.may_bring.insert(key_of(a));
+                        }
+                    } else if suppressed(answer, known) && !borderline(answer, known) {
+                        e.suppressed_brings.insert(key_of(&recs.srv));
+                        e.suppressed_brings.insert(key_of(&recs.txt));
+                        for a in recs.addrs.iter() {
+                            e.suppressed_brings.insert(key_of(a));
+                        }
                     }
                 } else if wire::names_eq_exact(&qu.name, &recs.meta.name) {
                     add_answer(&recs.meta, &mut e);
@@ -158,6 +174,15 @@ pub fn expect(services: &[(SvcState, bool)], i: &IfSpec, v4: bool, q: &Message) 
                         if add_answer(&recs.srv, &mut e) && qu.qtype == wire::T_SRV {
                             for a in fam_addrs.iter() {
                                 e.additionals.insert(key_of(a));
+                            }
+                        } else if e.optional.contains(&key_of(&recs.srv)) {
+                            // an answer that may or may not be given may or may not bring its addresses
+                            for a in recs.addrs.iter() {
+                                e.may_bring.insert(key_of(a));
+                            }
+                        } else if qu.qtype == wire::T_SRV && suppressed(&recs.srv, known) {
+                            for a in recs.addrs.iter() {
+                                e.suppressed_brings.insert(key_of(a));
                             }
                         }
                     }
@@ -700,6 +725,20 @@ pub fn monitor(made: &Made, which: &str, l: &mut Local) {
         if !miss_add.is_empty() {
             l.violate(Violation::new("Q2", "Q2/additional-records-missing", format!("records that a PTR/SRV answer must bring are missing: {:?}", &miss_add[..miss_add.len().min(3)])).with(wit()));
             continue;
+        }
+        // K2 (additionals): what only a suppressed answer would have brought stays out with it
+        if !exp.suppressed_brings.is_empty() {
+            l.act("K2-additionals");
+            let loose = |k: &Key| (k.0.clone(), k.1, k.4.clone());
+            let justified: BTreeSet<_> = exp.additionals.iter().chain(exp.answers.iter()).chain(exp.optional.iter()).chain(exp.may_bring.iter()).map(loose).collect();
+            let leaked: Vec<Key> = m.additionals.iter().map(key_of).filter(|k| exp.suppressed_brings.iter().any(|s| loose(s) == loose(k)) && !justified.contains(&loose(k))).collect();
+            if !leaked.is_empty() {
+                l.violate(
+                    Violation::new("K2", "K2/additionals-of-suppressed-answer-sent", format!("the answer that would have brought them was left out because of a known answer, yet the response carries {:?}", &leaked[..leaked.len().min(3)]))
+                        .with(wit()),
+                );
+                continue;
+            }
         }
         // Q4: only addresses inside the receiving interface's subnet
         l.act("Q4");
